@@ -105,6 +105,19 @@ def run(chk, prop, profiles, n_quick, n_thorough, codes, replay=None, extra_hist
     # ---- decide
     mine = [v for v in res["viols"] if pid in CODE_PROPS.get(v[1], [])]
     mine = [v for v in mine if v[1] in codes]
+    if pid == "C01":
+        # with a collector that accepts everything, data a live run holds at the exit and that is in none of the final
+        # requests (V_NOT_FLUSHED) can be in no acknowledged request either: C01's loss, seen one step earlier than V_LOST
+        def accepting(h):
+            for o in h["ops"]:
+                out = o.get("out")
+                if isinstance(out, dict) and out.get("kind") not in (None, "ok"):
+                    return False
+                if o["op"] == "exit" and any(x != "ok" for x in o.get("outs", {}).values()):
+                    return False
+            return True
+        mine += [v for v in res["viols"] if v[1] == 503 and v not in mine and accepting(hists[v[0]])]
+        mine.sort()
     others = [v for v in res["viols"] if v not in mine]
     chk.cov["monitor_violations"] = len(mine)
     chk.cov["monitor_violations_of_other_properties"] = len(others)
